@@ -20,7 +20,7 @@
 #define VP_NO_EVENTS
 #include "C_step.c"
 
-static char line[96];
+static char line[96], line2[96];
 
 static int known_cmd(char c)
 {
@@ -77,12 +77,33 @@ void harness(void)
     vp_in_lines[0] = line;
     vp_in_len[0] = n;
     vp_in_count = 1;
+#ifdef VP_TMPL2
+    {
+        /* a second line delivered by the same read(): the tokenizer state of the first line
+         * (argument vector, freed line block) must not leak into it */
+        static const char tmpl2[] = VP_TMPL2;
+        unsigned n2 = sizeof(tmpl2) - 1;
+        for (i = 0; i < n2; i++) {
+            char c = tmpl2[i];
+            if (c == 'c' || c == 'a') {
+                char v = (char)vp_u8();
+                VP_ASSUME(v != '\0' && v != '\n' && !blank(v) && v != ':');
+                c = v;
+            }
+            line2[i] = c;
+        }
+        line2[n2] = '\0';
+        vp_in_lines[1] = line2;
+        vp_in_len[1] = n2;
+        vp_in_count = 2;
+    }
+#endif
     vp_in_next = 0;
     vp_read_result = 1;
 
     iauth_read(0, EV_READ, iauth_in);
 
-    VP_ASSERT(vp_in_next == 1, "C08: the line was consumed");
+    VP_ASSERT(vp_in_next == vp_in_count, "C08: every line of the chunk was consumed");
     VP_ASSERT(!vp_rec_overflow, "environment: capture slots sufficient");
 #ifdef VP_ID_LIVE
     id_known = 1;
@@ -90,6 +111,9 @@ void harness(void)
     id_known = 0;
 #endif
     junk = have_cmd && !known_cmd(cmd);
+#ifdef VP_TMPL2
+    junk = 0;       /* two lines: memory safety and table well-formedness only */
+#endif
 #ifdef VP_ID_UNKNOWN
     junk = have_cmd && cmd != 'C';      /* an id nobody announced: everything but an announcement is dropped */
 #endif
